@@ -31,7 +31,7 @@ try:
             if p not in props.PROPS:
                 res[p] = "not-claimed"
                 continue
-            env = dict(os.environ, VF_REPO=WT)
+            env = dict(os.environ, VF_REPO=WT, VF_WITNESS_TARGET=WT + "-wtarget")
             r = subprocess.run([os.path.join(ROOT, "check"), p, "--no-evidence"], capture_output=True, text=True, env=env)
             viol = re.findall(r"obligation=(\S+)", r.stdout)
             und = [l for l in r.stdout.split("\n") if l.startswith("UNDECIDED")]
@@ -39,5 +39,5 @@ try:
         out[sd] = res
         print(sd, json.dumps(res), flush=True)
 finally:
-    subprocess.run("git -C /repo worktree remove --force %s" % WT, shell=True)
+    subprocess.run("git -C /repo worktree remove --force %s; rm -rf %s-wtarget" % (WT, WT), shell=True)
 json.dump(out, open(os.environ.get("SEV_OUT", "/tmp/seed_eval.json"), "w"), indent=1)
